@@ -46,6 +46,8 @@ def main():
         os.symlink(f"{base}/other", f"{base}/in/link")
     w(f"{base}/ws/w.py", "W")
     w(f"{base}/f.py", "F")
+    os.makedirs(f"{base}/in/build", exist_ok=True)
+    os.symlink(f"{base}/in/build", f"{base}/wsl")
     w(f"{scratch}/outside/o.py", "O")
     os.chdir(base)
     cfg = dict(cfg)
